@@ -4,6 +4,15 @@ import json
 props = [json.loads(l) for l in open('/verif/properties.jsonl')]
 ASSUME = "Trusted base: the simulator (simrt scheduler, simetcd/simnet/simdisk/simtikv models), the go/ast rewrite (R1-R5) of a scratch copy of /repo, the deterministic-runtime overlay, and the oracle code. etcd, gRPC, TiKV and the OS clock are models; interleavings are explored at seams only; sampling, not proof."
 claimed = {
+ "C01": dict(level="exploration", engine="e1", design="7/C01",
+   text="Seeded search: 1-3 real PD servers, 2-6 concurrent TSO stream clients with counts 1..2^18, manual reset-ts (accepted/rejected), under crash+restart, lease loss, leader-key deletion, etcd-leader moves, etcd errors (clean and unknown outcome), partitions, whole-process and per-task stalls and wall-clock skew/jumps up to hours. History oracle: granted ranges of one allocator pairwise disjoint; a request that began after another completed gets strictly larger values; logical part fits 18 bits; response count equals request count.",
+   technique="deterministic simulation (seeded scheduler + fault injection) with a real-time-order/uniqueness history oracle"),
+ "C02": dict(level="fault_enumeration", engine="e1", design="7/C02",
+   text="Fault enumeration over sampled histories: groups of 40 runs share one seeded history; run k crashes the serving leader immediately after its k-th storage commit and lets a member with a slower clock take over; other runs use a random nemesis incl. unknown-outcome errors on window saves. Invariants: after every scheduler step the in-memory physical time of every live allocator is below the stored window; on every commit the stored window never drops below an acknowledged value; every granted physical is below the stored window; plus C01's order/uniqueness oracle across the crash.",
+   technique="deterministic simulation with enumerated crash points after each storage write, step-wise invariants over memory vs durable state"),
+ "C03": dict(level="exploration", engine="e1", design="7/C03",
+   text="Seeded search: 2-3 members contending for the PD leadership under crash, partition (lease expiry, possibly late), resign, leader-key deletion, etcd-leader moves, stalls; an intruder task makes owners and non-owners attempt guarded writes at arbitrary points. Oracles evaluated inside the simulated etcd at every commit: a leader record is never overwritten while present; every change of a guarded key (TSO window, id window, leader priority, dc-location delete) was issued by the member named in the leader record at commit time; a served TSO/AllocID implies an etcd-live campaign lease of the server at some instant of the request interval.",
+   technique="deterministic simulation with commit-level ownership oracle inside the simulated etcd"),
  "C04": dict(level="exploration", engine="e1", design="7/C04",
    text="Seeded search over schedules and fault sequences: 2-3 real id.Allocator instances on one simulated etcd with the leader record switching/disappearing and instances dropped/recreated, and 1-3 real PD servers serving AllocID under crashes, lease loss, partitions, etcd errors (clean and unknown-outcome). Oracles: global uniqueness, per-allocator monotonicity for non-overlapping calls, id <= largest durably stored window, window only extended by the recorded leader, bounded liveness after faults stop. Exploration is the right level: the property quantifies over interleavings and crash points that only a controlled scheduler can produce; no exhaustive bound is claimed.",
    technique="deterministic simulation (seeded scheduler + fault injection) with invariant and history oracles"),
